@@ -271,6 +271,8 @@ pub struct Rendered {
     /// pre-order list of pt-level nodes
     pub nodes: Vec<NodeRec>,
     pub by_id: std::collections::HashMap<Id, usize>,
+    /// token index of the data-location keyword of a parameter, keyed by the id of the parameter's type expression
+    pub param_storage_tok: std::collections::HashMap<Id, usize>,
     depth: usize,
 }
 
@@ -394,6 +396,7 @@ fn r_named(r: &mut Rendered, args: &[(String, Ex)]) {
 fn r_param(r: &mut Rendered, p: &Param) {
     r_expr(r, &p.ty);
     if let Some(s) = p.storage {
+        r.param_storage_tok.insert(p.ty.id, r.toks.len());
         r.t(s);
     }
     if let Some(n) = &p.name {
